@@ -166,6 +166,14 @@ def resolve(e, effects, depth=0):
     for s in effects:
         if isinstance(s, ast.Assign) and len(s.targets) == 1 and isinstance(s.targets[0], ast.Name):
             env[s.targets[0].id] = _subst(s.value, env)
+        elif isinstance(s, ast.Assign) and len(s.targets) == 1 and isinstance(s.targets[0], (ast.Tuple, ast.List)):
+            # a, b = <sequence whose elements are visible>
+            vals = unroll(_subst(s.value, env))
+            tg = s.targets[0].elts
+            if vals is not None and len(vals) == len(tg):
+                for t, v in zip(tg, vals):
+                    if isinstance(t, ast.Name):
+                        env[t.id] = v
     return _subst(e, env)
 
 
@@ -244,6 +252,16 @@ def seq_exec(effects, env, val=None, defs=None):
     for s in effects:
         if isinstance(s, ast.Assign) and len(s.targets) == 1 and isinstance(s.targets[0], ast.Name):
             env[s.targets[0].id] = seq_eval(s.value, env, val, defs)
+        elif isinstance(s, ast.For) and not s.orelse and len(s.body) == 1 and isinstance(s.body[0], ast.Expr) and \
+                isinstance(s.body[0].value, ast.Call) and isinstance(s.body[0].value.func, ast.Attribute) and \
+                s.body[0].value.func.attr == 'append' and isinstance(s.body[0].value.func.value, ast.Name) and \
+                len(s.body[0].value.args) == 1:
+            # for x in SRC: L.append(f(x))   ==   L += [f(x) for x in SRC]
+            call = s.body[0].value
+            nme = call.func.value.id
+            comp = ast.ListComp(elt=call.args[0], generators=[ast.comprehension(target=s.target, iter=s.iter, ifs=[],
+                                                                                 is_async=0)])
+            env[nme] = env.get(nme, ((nme, None),)) + seq_eval(comp, env, val, defs)
         elif isinstance(s, ast.AugAssign) and isinstance(s.target, ast.Name) and isinstance(s.op, ast.Add):
             env[s.target.id] = seq_eval(s.target, env, val, defs) + seq_eval(s.value, env, val, defs)
         elif isinstance(s, ast.Expr) and isinstance(s.value, ast.Call) and isinstance(s.value.func, ast.Attribute) and \
@@ -254,3 +272,47 @@ def seq_exec(effects, env, val=None, defs=None):
             elif s.value.func.attr == 'append':
                 env[nme] = env.get(nme, ((nme, None),)) + (('lit:' + norm(s.value.args[0]), None),)
     return env
+
+
+# ------------------------------------------------------------------ literal sequences
+class _SubstNames(ast.NodeTransformer):
+    def __init__(self, env):
+        self.env = env
+
+    def visit_Name(self, node):
+        if isinstance(node.ctx, ast.Load) and node.id in self.env:
+            return copy.deepcopy(self.env[node.id])
+        return node
+
+
+def unroll(e):
+    """The element expressions of a sequence whose length is visible in the source, else None:
+    a list / tuple display, list(...) / tuple(...) of one, a comprehension without conditions over such a sequence or
+    over zip(...) of such sequences (targets substituted into the element)."""
+    if isinstance(e, (ast.List, ast.Tuple)):
+        if any(isinstance(x, ast.Starred) for x in e.elts):
+            return None
+        return list(e.elts)
+    if isinstance(e, ast.Call) and isinstance(e.func, ast.Name) and e.func.id in ('list', 'tuple') and len(e.args) == 1 \
+            and not e.keywords:
+        return unroll(e.args[0])
+    if isinstance(e, (ast.ListComp, ast.GeneratorExp)) and len(e.generators) == 1 and not e.generators[0].ifs:
+        g = e.generators[0]
+        it = g.iter
+        if isinstance(it, ast.Call) and isinstance(it.func, ast.Name) and it.func.id in ('zip', 'izip') and it.args and \
+                not it.keywords:
+            cols = [unroll(a) for a in it.args]
+            if any(c is None for c in cols) or len({len(c) for c in cols}) != 1:
+                return None
+            if not (isinstance(g.target, ast.Tuple) and len(g.target.elts) == len(cols) and
+                    all(isinstance(t, ast.Name) for t in g.target.elts)):
+                return None
+            out = []
+            for i in range(len(cols[0])):
+                env = {t.id: cols[k][i] for k, t in enumerate(g.target.elts)}
+                out.append(ast.fix_missing_locations(_SubstNames(env).visit(copy.deepcopy(e.elt))))
+            return out
+        seq = unroll(it)
+        if seq is not None and isinstance(g.target, ast.Name):
+            return [ast.fix_missing_locations(_SubstNames({g.target.id: x}).visit(copy.deepcopy(e.elt))) for x in seq]
+    return None
